@@ -18,6 +18,7 @@ import (
 	"bytes"
 	"encoding/json"
 	"fmt"
+	"reflect"
 	"strings"
 
 	"go.sia.tech/core/consensus"
@@ -76,6 +77,8 @@ func v2Rule(class string) string {
 		return "changed"
 	case strings.Contains(class, ".Parent."):
 		return "unchanged" // parent contents other than IDs, proofs
+	case strings.Contains(class, ".Resolution<V2StorageProof>") && strings.Contains(class, ".ProofIndex.StateElement.MerkleProof"):
+		return "unchanged" // the Merkle proof of the chain index element the storage proof refers to
 	case strings.Contains(class, ".Resolution<V2StorageProof>"):
 		return "either" // the proof object itself: not constrained by the statement
 	case strings.HasPrefix(class, ".Attestations[].Signature"):
@@ -466,6 +469,44 @@ func (e *env) eras(cs consensus.State, blk types.Block) {
 	add("asic", n.HardforkASIC.Height)
 	add("foundation", n.HardforkFoundation.Height)
 	add("v2", n.HardforkV2.AllowHeight)
+	// v2 signature hashes do not depend on the height at all: a v2 transaction signed against the parent of the first
+	// v2-capable block (height allow-1) is the same transaction in every later block
+	if allow := n.HardforkV2.AllowHeight; allow < 1<<39 {
+		for ti := range blk.V2Transactions() {
+			t := blk.V2.Transactions[ti]
+			hs := []uint64{allow, allow + 1, allow + 1000}
+			if allow > 0 {
+				hs = append(hs, allow-1)
+			}
+			sig := func(st consensus.State) (out [][32]byte) {
+				out = append(out, st.InputSigHash(t))
+				for i := range t.FileContracts {
+					out = append(out, st.ContractSigHash(t.FileContracts[i]))
+				}
+				for i := range t.Attestations {
+					out = append(out, st.AttestationSigHash(t.Attestations[i]))
+				}
+				for i := range t.FileContractResolutions {
+					if r, ok := t.FileContractResolutions[i].Resolution.(*types.V2FileContractRenewal); ok {
+						out = append(out, st.RenewalSigHash(*r))
+					}
+				}
+				return
+			}
+			ref := sig(cs)
+			e.b.Eval(1)
+			e.b.Count("v2_sighash_height_independence_cases", 1)
+			for _, h := range hs {
+				st := cs
+				st.Index.Height = h
+				if got := sig(st); !reflect.DeepEqual(got, ref) {
+					e.b.Violate("C12/sighash-depends-on-height/v2", fmt.Sprintf("a v2 signature hash computed against a parent state of height %d (v2 allow height %d) differs from the one computed at height %d", h, allow, cs.Index.Height), map[string]any{"height": h, "allow": allow})
+					break
+				}
+			}
+			break
+		}
+	}
 	for ti := range blk.Transactions {
 		t := blk.Transactions[ti]
 		if len(t.Signatures) == 0 {
